@@ -632,7 +632,7 @@ func (t *Tree) Compile(file string, args []string, out io.Writer) (err error) {
 			t.StructName = n.String()
 			t.StructVariables = n.Front().String()
 		case TypeRule:
-			if _, ok := t.Rules[n.String()]; !ok {
+			if existing, ok := t.Rules[n.String()]; !ok {
 				expression := n.Front()
 				cp := expression.Copy()
 				expression.Init()
@@ -642,6 +642,8 @@ func (t *Tree) Compile(file string, args []string, out io.Writer) (err error) {
 
 				t.Rules[n.String()] = n
 				t.RuleNames = append(t.RuleNames, n)
+			} else if existing != n {
+				return fmt.Errorf("rule '%v' defined more than once", n)
 			}
 		}
 	}
